@@ -298,3 +298,14 @@ def run(ctx):
             dbm7.rel,
             c.lineno,
         )
+
+    # ---- C12.8 catch's own cache entry is keyed by everything that decides what it stores ------------
+    # A handled catch stores `recover(error)` -- with the caught error inside -- under its own evaluation key.  If the key leaves out the error
+    # classes (or loses the task hash), a later catch over the same failing call with a class that does NOT match hits that entry: the failure is
+    # replayed from the cache, run() returns normally and nothing is recorded as failed.
+    r8 = ctx.rule("C12.8", "catch computes its cache key from all of its arguments, in the (eval_hash, args_hash) order", floor=2)
+    from .C15 import eval_key_obligations
+
+    for construct, ok, msg, rel_, line in eval_key_obligations(repo):
+        if ":catch:" in construct or construct.endswith(":unpack") and "scheduler.py:catch" in construct:
+            r8.check(ok, construct, msg, rel_, line)
